@@ -159,4 +159,8 @@ def run(c):
     # validator's power changed), with restarts of correct nodes, and the default configuration (WaitForTxs)
     net_runs(c, ["4eq-change", "5w-change-restart", "4eq-byz-leaves"] + (["4eq-wait", "4w-wait-restart"] if th else []), 40 if th else 4,
              ("net:agreement", "net:panic"))
+    if th:
+        # real reactor networks (all nodes correct): agreement of the stores and trace validation against the handlers
+        import checks.reactornet as rn
+        rn.run_part(c, prop_sigs=("reactornet:agreement", "reactornet:panic", "reactornet:trace"))
     c.exhaustive = False
